@@ -29,6 +29,8 @@ def run_property(pid, tier, seed, program=None, quiet=False):
     ctx = Ctx(program, Contracts(program), tier, seed)
     mod = PROPS.get(pid)
     obs = mod.obligations(ctx)
+    from sa import integrity
+    obs = obs + integrity.obligations(ctx, pid)
     return obs, ctx, mod
 
 
